@@ -573,9 +573,52 @@ func run(c *core.Ctx) error {
 	if len(hs) > 0 {
 		c.Sample(map[string]any{"history": hs[0].Acts, "answer_record": all[0]})
 	}
-	bad, err := c.JudgeRecords("TraceLayout", "TraceLayout.cfg", all, 6, core.Timeout(15*time.Minute), core.Heap(6000))
-	if err != nil {
-		return err
+	// TLC judges the records in chunks of whole histories (a record is compared with
+	// the first layout of ITS history), a few chunks at a time
+	type chunk struct{ lo, hi int }
+	var chunks []chunk
+	{
+		per := 40 * len(ls) // result slots per chunk: 40 histories
+		pos := 0
+		for s0 := 0; s0 < len(results); s0 += per {
+			n := 0
+			for k := s0; k < s0+per && k < len(results); k++ {
+				n += len(results[k])
+			}
+			chunks = append(chunks, chunk{pos, pos + n})
+			pos += n
+		}
+	}
+	bad := map[int]string{}
+	{
+		var jmu sync.Mutex
+		var jwg sync.WaitGroup
+		var jerr error
+		sem := make(chan struct{}, 4)
+		for _, ch := range chunks {
+			if ch.hi == ch.lo {
+				continue
+			}
+			jwg.Add(1)
+			sem <- struct{}{}
+			go func(ch chunk) {
+				defer jwg.Done()
+				defer func() { <-sem }()
+				b, err := c.JudgeRecords("TraceLayout", "TraceLayout.cfg", all[ch.lo:ch.hi], 6, core.Timeout(15*time.Minute), core.Heap(4000))
+				jmu.Lock()
+				defer jmu.Unlock()
+				if err != nil && jerr == nil {
+					jerr = err
+				}
+				for i, inv := range b {
+					bad[ch.lo+i] = inv
+				}
+			}(ch)
+		}
+		jwg.Wait()
+		if jerr != nil {
+			return jerr
+		}
 	}
 	c.Traces(len(hs))
 	for i, inv := range bad {
